@@ -17,7 +17,7 @@ EXPLANATION = (
     "initialises a secondary in place (compared by truth table).")
 NOT_DECIDED = "index arithmetic of the scans/partitions, counter values, termination"
 
-TECHNIQUE = ('ownership and effect-set analysis over the call graph; typestate of status setters by enumerator argument and action order; truth-table comparison of two branch predicates extracted from the CFG; throwing-guard dominance')
+TECHNIQUE = ("ownership and effect-set analysis over the call graph; typestate of status setters by enumerator argument and action order; truth table of LocateAlive's slot decision and boolean-domain interpretation (lib/boolinterp.py) of ProcessSecondariesExecutor over parent status x track order x sequences of surviving/cleared secondaries; guard dominance of the capacity validation")
 
 UNITS = [
     "src/celeritas/track/ExtendFromPrimariesAction.cc",
